@@ -67,7 +67,7 @@ reg('C07', 'exploration',
     'RelatedUnitSystem, ConsistentUnit, Abbreviation, ParseEnumeration and Convert on the real code (a lookup must be a function of its argument only; the three results are bound by reference '
     'and read after the last call), the same tables asked from a second and third thread, one after another, in both orders of first use, and histories that start in a pristine forked process (every order of first use of the unit systems, every ordered pair as first calls).',
     TB + 'Symbol oracle atom table; the reading of unit-system enumerator names (Metre/Millimetre/Foot/Inch, Kilogram/Gram/Pound(-force), Second, Kelvin/Rankine).',
-    'exhaustive enumeration of the finite configuration space against exact rational oracle', 'DESIGN.md section 7 C07', thorough=False)
+    'exhaustive enumeration of the finite configuration space against exact rational oracle + exhaustive call histories (N^3, thread orders, pristine-process first-use orders)', 'DESIGN.md section 7 C07')
 reg('C08', 'exploration',
     'Exhaustive over the tables: every enumerator of the 39 enumeration types (found by reflection over all int8 values, each looked up '
     'by the real code in a forked child so a missing row is an observed crash), every accepted spelling (all keys of the spelling '
